@@ -536,7 +536,7 @@ def run(ctx):
     if corpus:
         explore(ctx, rep, corpus, "corpus")
     r = ctx.sub_rng("gen")
-    cases = [gen_case(r) for _ in range(ctx.n(3000, 40000))]
+    cases = [gen_case(r) for _ in range(ctx.n(2500, 40000))]
     broken = explore(ctx, rep, cases, "main")
     if ctx.quick:
         sw = gen_sweep(ctx.sub_rng("sweep"), sweep_windows(ctx.sub_rng("windows"))[:8], stride=40)
